@@ -16,11 +16,11 @@ func init() {
 
 func runC08(c *Ctx) {
 	P := c.P
-	c.Explanation = "Decides the accounting clauses structurally: (R-EVICT-PAIR) in every Cache method each departure from the store (Store.Remove of a key found by Check, or Store.Evict) is paired in its block with exactly one eviction callback on that very (key, value), exactly one subtraction of sizeOf(that value) from the size accumulator and exactly one count−1, and none of the three occurs without a departure; an arrival (Store.Store) is paired with count+1 and a size that includes sizeOf(val). (R-LIMIT-LOOP) the only non-decreasing assignment of size stores a value proved ≤ limit by the exit edge of the eviction loop, whose initial value is size + sizeOf(val); a Put larger than the limit returns false before any effect. (R-CHECK-PURE) Has reaches only Store.Check, and lruStore.Check with its callees has an empty effect set — Has does not count as a use. (R-CLOCK) every lastAccess written is the clock value just ticked in the same block; the clock has no other writer. Does NOT decide which entry is evicted (victim order needs a correct heap — C05, where F1 is listed — and a history argument) nor agreement with a reference LRU cache."
-	c.rule("R-EVICT-PAIR", 5, "each departure ↔ exactly one callback(k,v), one size −= sizeOf(v), one count−1 in its block; none of these without a departure; arrival ↔ count+1 and size including sizeOf(val)")
-	c.rule("R-LIMIT-LOOP", 3, "size only receives values ≤ limit (loop exit fact) or decreases by a sizeOf result; the too-big refusal precedes every effect of Put")
+	c.Explanation = "Decides the accounting clauses structurally: (R-EVICT-PAIR) in every Cache method each departure from the store (Store.Remove of a key found by Check, or Store.Evict) is paired in its block with exactly one eviction callback on that very (key, value), exactly one subtraction of sizeOf(that value) from the size accumulator and exactly one count−1, and none of the three occurs without a departure; an arrival (Store.Store) is paired with count+1 and a size that includes sizeOf(val). (R-LIMIT-LOOP) the only non-decreasing assignment of size stores a value proved ≤ limit by the exit edge of the eviction loop, whose initial value is size + sizeOf(val); a Put larger than the limit returns false before any effect. (R-CHECK-PURE) Has reaches only Store.Check, and lruStore.Check with its callees has an empty effect set — Has does not count as a use. (R-CLOCK) every lastAccess written is the clock value just ticked in the same block; the clock has no other writer. (R-USE-TICK) every successful Access and every Store ticks, stamps and re-inserts on all paths, so Put and successful Get always count as uses. (R-POS-WRITERS, shared with C06) the key→offset index is deleted only after the heap removal, so it stays in step with the heap. Does NOT decide which entry is evicted (victim order needs a correct heap — C05, where F1 is listed — and a history argument) nor agreement with a reference LRU cache."
+	c.rule("R-EVICT-PAIR", 3, "each departure ↔ exactly one callback(k,v), one size −= sizeOf(v), one count−1 in its block; none of these without a departure; arrival ↔ count+1 and size including sizeOf(val)")
+	c.rule("R-LIMIT-LOOP", 2, "size only receives values ≤ limit (loop exit fact) or decreases by a sizeOf result; the too-big refusal precedes every effect of Put")
 	c.rule("R-CHECK-PURE", 2, "Cache.Has uses only Store.Check; lruStore.Check and its callees have no effects")
-	c.rule("R-CLOCK", 3, "every lastAccess written is load(clock) preceded in-block by clock = clock+1; clock has no other writer")
+	c.rule("R-CLOCK", 2, "every lastAccess written is load(clock) preceded in-block by clock = clock+1; clock has no other writer")
 	c.assume("the size function returns non-negative values (sizeOf >= 0)")
 
 	cacheT := P.Named("cache", "Cache")
@@ -408,6 +408,68 @@ func runC08(c *Ctx) {
 		c.judge(len(effs) == 0, "R-CHECK-PURE", "cache.(*lruStore).Check:effects", chk.Pos(), "no effects (transitively)", fmt.Sprintf("Check has effects %v: a presence test would change the recency order", effs))
 	} else {
 		c.undecided("ANCHOR", "cache.(*lruStore).Check", 0, "not found")
+	}
+
+	// ---- R-POS-WRITERS (shared with C06): the key→offset index stays in step with the heap
+	c.rule("R-POS-WRITERS", 4, "lruStore.present has exactly the writers {update callback, Store} and deleters {Remove, Evict}, each deletion after the heap removal; the callback is installed")
+	rulePosWriters(c)
+
+	// ---- R-USE-TICK: a successful Access / a Store always counts as a use
+	c.rule("R-USE-TICK", 2, "every successful return of lruStore.Access and every return of lruStore.Store is preceded on all paths by a clock tick, a lastAccess stamp and a heap insertion")
+	{
+		clockF0 := P.Field("cache", "lruStore", "clock")
+		laF0 := P.Field("cache", "prioKey", "lastAccess")
+		accessF0 := P.Field("cache", "lruStore", "access")
+		qAdd := P.Func("heapq", "Queue", "Add")
+		for _, mn := range []string{"Access", "Store"} {
+			fn := P.Func("cache", "lruStore", mn)
+			if fn == nil || clockF0 == nil || laF0 == nil || accessF0 == nil || qAdd == nil {
+				c.undecided("ANCHOR", "cache.(*lruStore)."+mn, 0, "not found")
+				continue
+			}
+			c.sawFn(fnName(fn))
+			isStoreTo := func(in ssa.Instruction, f *types.Var) bool {
+				st, ok := in.(*ssa.Store)
+				if !ok {
+					return false
+				}
+				fa, ok := st.Addr.(*ssa.FieldAddr)
+				if !ok {
+					return false
+				}
+				_, g := fieldVarOf(fa)
+				return sameField(f, g)
+			}
+			events := map[string]func(ssa.Instruction) bool{
+				"clock tick":       func(in ssa.Instruction) bool { return isStoreTo(in, clockF0) },
+				"lastAccess stamp": func(in ssa.Instruction) bool { return isStoreTo(in, laF0) },
+				"heap insertion": func(in ssa.Instruction) bool {
+					call, ok := in.(*ssa.Call)
+					return ok && staticCallee(&call.Call) == qAdd && isLoad(call.Call.Args[0], accessF0)
+				},
+			}
+			isSuccess := func(in ssa.Instruction) bool {
+				ret, ok := in.(*ssa.Return)
+				if !ok {
+					return false
+				}
+				if len(ret.Results) == 2 {
+					if cst, ok := ret.Results[1].(*ssa.Const); ok && cst.Value != nil && cst.Value.String() == "false" {
+						return false // not-found return
+					}
+				}
+				return true
+			}
+			var probs []string
+			for what, ev := range events {
+				found, wit := reachesWithout(P, firstInstr(fn), true, isSuccess, ev)
+				if found {
+					probs = append(probs, "a successful return is reachable without the "+what+" ("+wit+")")
+				}
+			}
+			sortStrings(probs)
+			c.judge(len(probs) == 0, "R-USE-TICK", fnName(fn)+":counts as a use", fn.Pos(), "tick, stamp and heap insertion on every successful path", fmt.Sprint(probs)+": a use is not recorded, so the entry looks older than it is")
+		}
 	}
 
 	// ---- R-CLOCK
